@@ -86,6 +86,7 @@ class BaseNode(Node):
                 value = np.array(value, dtype=self.dtype)
             if self.value_slice:
                 value = self.slice_value(self.value_slice, value)
+                self.value_slice = None  # the slice belongs to the injected reference and is applied once
             if self.dimension:
                 # check if dimensions are correct
                 for d,dim in enumerate(self.dimension):
